@@ -180,14 +180,24 @@ def _dep_sdl(dep, rng=None):
     return " @deprecated(reason: %s)" % _esc(r)
 
 
-def _field_sdl(f):
+def _field_sdl(f, rng=None, tags=False):
     args = ""
     if f.get("args"):
         args = "(" + ", ".join("%s: %s" % (a, render_type(t)) for a, t in f["args"]) + ")"
-    return "%s%s: %s%s" % (f["name"], args, render_type(f["type"]), _dep_sdl(f.get("deprecated")))
+    dirs = _dep_sdl(f.get("deprecated"))
+    if tags and rng is not None:
+        # custom directives before / after / around `@deprecated`, and on fields that are not deprecated
+        r = rng.random()
+        if r < 0.2:
+            dirs = ' @tag(name: "x")' + dirs
+        elif r < 0.35:
+            dirs = dirs + ' @tag(name: "deprecated")'
+        elif r < 0.45:
+            dirs = ' @tag(name: "a") @owner' + dirs + ' @tag(name: "b")'
+    return "%s%s: %s%s" % (f["name"], args, render_type(f["type"]), dirs)
 
 
-def render_sdl(schema, rng=None, order=None, extend=False, comments=False, multiline=True, declare_builtins=False):
+def render_sdl(schema, rng=None, order=None, extend=False, comments=False, multiline=True, declare_builtins=False, tags=False):
     """order: list of names (default schema.order). extend: split a random subset of the
     fields of some object types into `extend type` blocks (needs rng)."""
     s = schema
@@ -217,7 +227,7 @@ def render_sdl(schema, rng=None, order=None, extend=False, comments=False, multi
         elif k == "enum":
             out.append(desc + "enum %s {%s%s\n}" % (n, sep, sep.join(d["values"])))
         elif k == "interface":
-            out.append(desc + "interface %s {%s%s\n}" % (n, sep, sep.join(_field_sdl(f) for f in d["fields"])))
+            out.append(desc + "interface %s {%s%s\n}" % (n, sep, sep.join(_field_sdl(f, rng, tags) for f in d["fields"])))
         elif k == "object":
             fields = list(d["fields"])
             impl = list(d.get("implements", []))
@@ -232,7 +242,7 @@ def render_sdl(schema, rng=None, order=None, extend=False, comments=False, multi
                     k = rng.randint(1, len(impl))
                     impl, ext_impl = impl[: len(impl) - k], impl[len(impl) - k:]
             impl_s = (" implements " + " & ".join(impl)) if impl else ""
-            out.append(desc + "type %s%s {%s%s\n}" % (n, impl_s, sep, sep.join(_field_sdl(f) for f in fields)))
+            out.append(desc + "type %s%s {%s%s\n}" % (n, impl_s, sep, sep.join(_field_sdl(f, rng, tags) for f in fields)))
             if ext_f:
                 # one, two or three `extend type` blocks for the same type (order of fields preserved)
                 chunks = [ext_f]
@@ -243,7 +253,7 @@ def render_sdl(schema, rng=None, order=None, extend=False, comments=False, multi
                 for ci, chunk in enumerate(chunks):
                     # interfaces arrive with the FIRST block when there are several (a later block must not undo it)
                     ext_impl_s = (" implements " + " & ".join(ext_impl)) if (ext_impl and ci == 0) else ""
-                    ext_blocks.append("extend type %s%s {%s%s\n}" % (n, ext_impl_s, sep, sep.join(_field_sdl(f) for f in chunk)))
+                    ext_blocks.append("extend type %s%s {%s%s\n}" % (n, ext_impl_s, sep, sep.join(_field_sdl(f, rng, tags) for f in chunk)))
         elif k == "union":
             out.append(desc + "union %s = %s" % (n, " | ".join(d["members"])))
         elif k == "input":
@@ -251,6 +261,8 @@ def render_sdl(schema, rng=None, order=None, extend=False, comments=False, multi
             dfl = d.get("defaults") or {}
             out.append(desc + "input %s%s {%s%s\n}" % (n, one, sep, sep.join("%s: %s%s" % (f, render_type(t), (" = " + dfl[f]) if f in dfl else "") for f, t in d["fields"])))
     out += ext_blocks
+    if tags and rng is not None:
+        out.insert(0, "directive @tag(name: String) repeatable on FIELD_DEFINITION | OBJECT\n\ndirective @owner on FIELD_DEFINITION")
     if declare_builtins:
         # schema dumps of several servers / tools list the built-in scalars explicitly; that is legal SDL
         out = ["scalar %s" % b for b in (declare_builtins if isinstance(declare_builtins, list) else BUILTIN_SCALARS)] + out
